@@ -15,8 +15,15 @@
       sequence (whole-chromosome and already-chunked sources); members keep coordinates / identifiers / guids and
       their sequence is the source's restricted to the new bounds.
   T3  GUID / identifier / interval-GUID queries = set-builder specs; kept children keep only requested grandchildren.
-  F   the modelled CURRENT code deviates on the finding inputs (F-C09a, F-C09b, F-C09c, F-C19f): witnesses below;
-      the `meets` theorems are stated on the complement (their hypotheses say exactly which inputs are excluded).
+  F   the modelled CURRENT code deviates on the finding inputs (F-C09b, F-C09c, F-C19f): witnesses below; the `meets`
+      theorems are stated on the complement (their hypotheses say exactly which inputs are excluded).
+      F-C09a is repaired in /repo (88921fc): its witness became the positive theorem `coding_only_skips_variants`.
+  R   repairs behind constants: `Model.Query.repairedC09b`, `repairedC09c` (both `false` = the code as it is) and
+      `variantFromDictDropsParent` (`true`).  `subsetParentG fixB fixC` models `_subset_parent` as coded and with the
+      candidate patch (findings/C09.candidate_patches.diff); every theorem below is proved for the constants AS
+      SYMBOLS (never unfolded), the witnesses are stated about `subsetParentG false false` / `… true true`
+      explicitly — so flipping a constant after applying the patch keeps this file compiling, admits sequence-less
+      parents (`ParWF`) and out-of-chunk members of id queries (`IdDomain`), and nothing else changes.
 -/
 import BioCantor.Proofs.QueryFindings
 import BioCantor.Proofs.QueryIds
@@ -31,12 +38,12 @@ open BioCantor BioCantor.Spec BioCantor.Spec.Query BioCantor.Model.Query BioCant
 /-- T1a: for ALL collections whose children contain their grandchildren (`ChildWF`: true by construction, a gene's
     span is the min/max of its transcripts), ALL valid non-negative ranges and ALL flags, `_query_by_position` keeps
     exactly `specFilter` of the children in iteration order — with or without the bin pre-filter
-    (`completely_within and start and end`), whatever `Gen.bins` assigns.
-    `hv` excludes only F-C09a (`coding_only` on a collection holding a VariantIntervalCollection). -/
+    (`completely_within and start and end`), whatever `Gen.bins` assigns.  (A variant collection is never coding:
+    `Child.isCoding`; F-C09a repaired, no exclusion left.) -/
 theorem query_kept_is_specFilter (src : Source) (s e : Int) (cw co : Bool) (hs : 0 ≤ s) (hse : s < e)
-    (hwf : ∀ c ∈ src.children, ChildWF c) (hv : co = true → ∀ c ∈ src.children, c.kind ≠ .var) :
+    (hwf : ∀ c ∈ src.children, ChildWF c) :
     queryKept src s e cw co = .ok (specFilter (iterChildren src) co cw s e) :=
-  queryKept_eq src s e cw co hs hse hwf hv
+  queryKept_eq src s e cw co hs hse hwf
 
 /-- T1a': the iteration order is a permutation of the children, so as a SET the kept members are
     `specFilter src.children`. -/
@@ -111,19 +118,19 @@ theorem member_sequence (rp : RPar) (g : GChild) (hg : g.start ≤ g.stop)
     bounds (or the expansion leaves the sequence), else exactly the `specFilter` members with unchanged
     coordinates / identifiers / guids, the documented bounds, the source's sequence restricted to them, and member
     sequences restricted likewise.
-    Excluded (findings, witnesses below): F-C09a (`hco`), F-C09b / F-C08a (`SrcWF.par`), F-C19f (`hb`). -/
+    Excluded (findings, witnesses below): F-C09b (until `repairedC09b`) / F-C08a (`SrcWF.par`), F-C19f (`hb`). -/
 theorem query_by_position_meets_spec (src : Source) (q : PosQ) (wf : SrcWF src) (b : Int × Int)
-    (hb : selfBounds src = some b) (hco : q.codingOnly = true → ∀ c ∈ src.children, c.kind ≠ .var) :
+    (hb : selfBounds src = some b) :
     okQueryByPosition src q (toAns (queryByPosition src q)) = true :=
-  queryByPosition_meets src q wf b hb hco
+  queryByPosition_meets src q wf b hb
 
 /-- T2d (corollary): an accepted answer carries the documented bounds. -/
 theorem result_bounds_documented (src : Source) (q : PosQ) (wf : SrcWF src) (bs be : Int)
-    (hb : selfBounds src = some (bs, be)) (hco : q.codingOnly = true → ∀ c ∈ src.children, c.kind ≠ .var)
+    (hb : selfBounds src = some (bs, be))
     (r : Result) (hr : queryByPosition src q = .ok r) :
     (r.start, r.stop) = resultBounds q (optOr q.s bs) (optOr q.e be)
       (specFilter src.children q.codingOnly q.cw (optOr q.s bs) (optOr q.e be)) := by
-  have h := queryByPosition_meets src q wf (bs, be) hb hco
+  have h := queryByPosition_meets src q wf (bs, be) hb
   rw [hr] at h
   unfold okQueryByPosition expectQueryByPosition at h
   rw [specBounds_eq_self hb] at h
@@ -164,29 +171,31 @@ theorem exW_wf : SrcWF exW := by
 example : selfBounds exW = some (0, 12) := rfl
 example : okQueryByPosition exW ⟨some 4, some 7, false, false, false⟩
     (toAns (queryByPosition exW ⟨some 4, some 7, false, false, false⟩)) = true :=
-  query_by_position_meets_spec exW _ exW_wf (0, 12) rfl (by intro h; cases h)
+  query_by_position_meets_spec exW _ exW_wf (0, 12) rfl
 
 /-! ## T3 — GUID / identifier queries are their set-builder specifications -/
 
 /-- T3a: `query_by_guids(ids)` (ids a set) returns exactly { c | c.guid ∈ ids }: unchanged members, bounds = the
-    source bounds widened to the kept members, the source's sequence.  `hin` excludes only F-C09c (a kept member
-    reaching beyond the sequence chunk); for whole-chromosome sources it holds by construction. -/
+    source bounds widened to the kept members, the source's sequence.  `hin` (`IdDomain`): the members lie inside
+    the bounds — this excludes only F-C09c (a member reaching beyond the sequence chunk) and is dropped for chunks
+    once `repairedC09c` is flipped (second disjunct); for whole-chromosome sources it holds by construction. -/
 theorem query_by_guids_meets_spec (src : Source) (wf : SrcWF src) (ids : List Nat) (hids : ids.Nodup) (bs be : Int)
     (hb : selfBounds src = some (bs, be)) (hne : src.par.hasSeq = true → bs < be)
-    (hin : src.par.hasSeq = true → ∀ c ∈ src.children, bs ≤ c.start ∧ c.stop ≤ be) :
+    (hin : src.par.hasSeq = true → IdDomain src bs be src.children) :
     okQueryByGuids src ids (toAns (queryByGuids src ids)) = true :=
   queryByGuids_meets src wf ids hids bs be hb hne hin
 
 /-- T3b: `query_by_feature_identifiers(ids)` returns exactly { c | c.identifiers ∩ ids ≠ ∅ }. -/
 theorem query_by_identifiers_meets_spec (src : Source) (wf : SrcWF src) (ids : List (List Char)) (bs be : Int)
     (hb : selfBounds src = some (bs, be)) (hne : src.par.hasSeq = true → bs < be)
-    (hin : src.par.hasSeq = true → ∀ c ∈ src.children, bs ≤ c.start ∧ c.stop ≤ be) :
+    (hin : src.par.hasSeq = true → IdDomain src bs be src.children) :
     okQueryByIdentifiers src ids (toAns (queryByIdentifiers src ids)) = true :=
   queryByIdentifiers_meets src wf ids bs be hb hne hin
 
 example : okQueryByGuids exW [2, 999] (toAns (queryByGuids exW [2, 999])) = true :=
   query_by_guids_meets_spec exW exW_wf [2, 999] (by decide) 0 12 rfl (by intro _; decide) (by
-    intro _ c hc
+    intro _
+    refine Or.inl (fun c hc => ?_)
     simp only [exW, List.mem_cons, List.not_mem_nil, or_false] at hc
     rcases hc with rfl | rfl <;> decide)
 
@@ -200,7 +209,7 @@ example : okQueryByGuids exW [2, 999] (toAns (queryByGuids exW [2, 999])) = true
 theorem query_by_interval_guids_meets_spec_partial (src : Source) (wf : SrcWF src) (gw : GcWF src) (kinds : List Kind)
     (ids : List Nat) (hids : ids.Nodup) (hnv : ∀ c ∈ src.children, c.kind ≠ .var) (bs be : Int)
     (hb : selfBounds src = some (bs, be)) (hne : src.par.hasSeq = true → bs < be)
-    (hin : src.par.hasSeq = true → ∀ c ∈ src.children, bs ≤ c.start ∧ c.stop ≤ be) :
+    (hin : src.par.hasSeq = true → IdDomain src bs be src.children) :
     okQueryByIntervalGuids src kinds ids (toAns (queryByIntervalGuids src kinds ids)) = true :=
   queryByIntervalGuids_meets src wf gw kinds ids hids hnv bs be hb hne hin
 
@@ -234,41 +243,75 @@ example : okQueryByIntervalGuids exW [.gene, .feat, .var] [1001, 1100]
       simp only [exW, List.mem_cons, List.not_mem_nil, or_false] at hc
       rcases hc with rfl | rfl <;> decide)
     0 12 rfl (by intro _; decide) (by
-      intro _ c hc
+      intro _
+      refine Or.inl (fun c hc => ?_)
       simp only [exW, List.mem_cons, List.not_mem_nil, or_false] at hc
       rcases hc with rfl | rfl <;> decide)
 
 /-! ## F — the modelled current code deviates on the finding inputs -/
 
-/-- F-C09a (general): `coding_only=True` on a collection holding a VariantIntervalCollection ends in
-    AttributeError for every valid range (the specification wants the coding genes). -/
-theorem F_C09a_coding_only_with_variants (src : Source) (s e : Int) (cw : Bool) (hs : 0 ≤ s) (hse : s < e)
-    (hwf : ∀ c ∈ src.children, ChildWF c) (hv : ∃ c ∈ src.children, c.kind = .var) :
-    queryKept src s e cw true = .error .attributeError :=
-  queryKept_codingOnly_variant src s e cw hs hse hwf hv
+/-- F-C09a, REPAIRED in /repo (88921fc; before the repair this loop ended in AttributeError for every collection
+    holding a VariantIntervalCollection — regression line in corpus/C09/regress.ops): a coding-only query succeeds
+    and keeps no variant collection, only coding genes. -/
+theorem coding_only_skips_variants (src : Source) (s e : Int) (cw : Bool) (hs : 0 ≤ s) (hse : s < e)
+    (hwf : ∀ c ∈ src.children, ChildWF c) :
+    ∃ kept, queryKept src s e cw true = .ok kept ∧ ∀ c ∈ kept, c.kind ≠ .var ∧ c.coding = true :=
+  queryKept_codingOnly_variant src s e cw hs hse hwf
 
 /-- F-C19f: an empty collection without a located parent has no bounds: AttributeError, not InvalidQueryError. -/
 theorem F_C19f_empty_collection :
     queryByPosition ⟨.none, none, []⟩ ⟨some 0, some 1, false, true, false⟩ = .error .attributeError
     ∧ okQueryByPosition ⟨.none, none, []⟩ ⟨some 0, some 1, false, true, false⟩ .raised = false := ⟨rfl, rfl⟩
 
-/-- F-C09b: a sequence-less parent: `_subset_parent` runs into `extract_sequence()`. -/
+/-- F-C09b, as coded (`fixB = false`): on a sequence-less parent `_subset_parent` runs into `extract_sequence()`;
+    with the candidate repair (`fixB = true`) the parent is handed on unchanged. -/
 theorem F_C09b_sequence_less_parent :
-    subsetParent ⟨.noseq, some (2, 8), [⟨.gene, 2, 8, false, 1, [], [⟨2, 8, .plus, 1000⟩]⟩]⟩ 3 8
-      = .error (.doc .NullSequence) := rfl
+    subsetParentG false false ⟨.noseq, some (2, 8), [⟨.gene, 2, 8, false, 1, [], [⟨2, 8, .plus, 1000⟩]⟩]⟩ 3 8
+      = .error (.doc .NullSequence)
+    ∧ subsetParentG true false ⟨.noseq, some (2, 8), [⟨.gene, 2, 8, false, 1, [], [⟨2, 8, .plus, 1000⟩]⟩]⟩ 3 8
+      = .ok .noseq := ⟨rfl, rfl⟩
 
-/-- F-C09c: id query on a chunk `[3,9)` keeping a member that ends at 10: the clamp `end = chromosome_location.end - 1`
-    yields the chunk `[3,8)` — one base short of the specified `[3,9)`. -/
+/-- F-C09c, as coded (`fixC = false`): id query on a chunk `[3,9)` keeping a member that ends at 10: the clamp
+    `end = chromosome_location.end - 1` yields the chunk `[3,8)` — one base short of the specified `[3,9)`;
+    with the candidate repair (`fixC = true`) the specified chunk comes out. -/
 theorem F_C09c_end_clamp :
-    subsetParent exK 2 10 = .ok (.chunk 3 8 ['T','T','G','C','A'])
-    ∧ expectPar exK.par 2 10 = .chunk 3 9 ['T','T','G','C','A','A'] := ⟨rfl, by decide⟩
+    subsetParentG false false exK 2 10 = .ok (.chunk 3 8 ['T','T','G','C','A'])
+    ∧ expectPar exK.par 2 10 = .chunk 3 9 ['T','T','G','C','A','A']
+    ∧ subsetParentG false true exK 2 10 = .ok (.chunk 3 9 ['T','T','G','C','A','A']) := ⟨rfl, by decide, rfl⟩
+
+/-! ## R — the candidate repairs of F-C09b / F-C09c, proved in general -/
+
+/-- repaired F-C09c: a range overlapping the chunk is clamped to it — the new parent is the stretch
+    `[max start cs, min stop ce)`, i.e. exactly `expectPar`; no base is lost at the chunk end. -/
+theorem subset_parent_chunk_clamped_repaired (fixB : Bool) (src : Source) (cs : Int) (seq : List Char)
+    (hp : src.par = .chunk cs seq) (hb : src.bounds = none) (hcs : 0 ≤ cs) (start stop : Int)
+    (h : max start cs < min stop (cs + seq.length)) (hnid : ¬ (start = cs ∧ stop = cs + seq.length)) :
+    subsetParentG fixB true src start stop = .ok (expectPar src.par start stop) := by
+  rw [subsetParentG_chunk_clamped fixB src cs seq hp hb hcs start stop h hnid, hp]
+  rfl
+
+/-- repaired F-C09b: a sequence-less parent is handed on unchanged -/
+theorem subset_parent_noseq_repaired (fixC : Bool) (src : Source) (hp : src.par = .noseq) (start stop : Int)
+    (hne : start ≠ stop) : subsetParentG true fixC src start stop = .ok .noseq :=
+  subsetParentG_noseq fixC src hp start stop hne
+
+/-- the repairs do not touch what already was right: inside the chunk every version agrees -/
+theorem subset_parent_versions_agree_inside (fixB fixC : Bool) (src : Source) (cs : Int) (seq : List Char)
+    (hp : src.par = .chunk cs seq) (hb : src.bounds = none) (hcs : 0 ≤ cs) (start stop : Int)
+    (h : cs ≤ start ∧ start < stop ∧ stop ≤ cs + seq.length) :
+    subsetParentG fixB fixC src start stop = subsetParentG false false src start stop := by
+  rw [subsetParentG_chunk fixB fixC src cs seq hp hb hcs start stop h,
+    subsetParentG_chunk false false src cs seq hp hb hcs start stop h]
+
+example : subsetParentG false true exK 2 10 = .ok (expectPar exK.par 2 10) :=
+  subset_parent_chunk_clamped_repaired false exK 3 _ rfl rfl (by decide) 2 10 (by decide) (by decide)
 
 /-! ## more non-vacuity: the theorems above instantiated on concrete non-trivial inputs -/
 
 theorem exW_childwf : ∀ c ∈ exW.children, ChildWF c := fun c hc => (exW_wf.hull c hc).wf
 
 example : queryKept exW 3 9 true false = .ok (specFilter (iterChildren exW) false true 3 9) :=
-  query_kept_is_specFilter exW 3 9 true false (by decide) (by decide) exW_childwf (by intro h; cases h)
+  query_kept_is_specFilter exW 3 9 true false (by decide) (by decide) exW_childwf
 
 example : ∃ S, Gen.bins 2 9 .bed false = .ok (.many S) ∧ anyBinIn S exGene.gcs = .ok true := by
   obtain ⟨S, hS⟩ := Props.C16.bins_all_is_set 2 9 .bed
@@ -291,7 +334,8 @@ example : (stretch 3 ['T','T','G','C','A','A'] 4 7)[(5 - 4 : Int).toNat]? = ['T'
 
 example : okQueryByIdentifiers exW [['b'], ['z']] (toAns (queryByIdentifiers exW [['b'], ['z']])) = true :=
   query_by_identifiers_meets_spec exW exW_wf _ 0 12 rfl (by intro _; decide) (by
-    intro _ c hc
+    intro _
+    refine Or.inl (fun c hc => ?_)
     simp only [exW, List.mem_cons, List.not_mem_nil, or_false] at hc
     rcases hc with rfl | rfl <;> decide)
 
@@ -301,13 +345,12 @@ example : okChildQueryByGuids exW exGene [1001] (toCAns (childQueryResult exW ex
 def exVar : Child := ⟨.var, 9, 10, false, 3, [], [⟨9, 10, .plus, 1200⟩]⟩
 def exN : Source := ⟨.none, some (0, 12), [exGene, exVar]⟩
 
-example : queryKept exN 1 12 true true = .error .attributeError :=
-  F_C09a_coding_only_with_variants exN 1 12 true (by decide) (by decide)
+example : ∃ kept, queryKept exN 1 12 true true = .ok kept ∧ ∀ c ∈ kept, c.kind ≠ .var ∧ c.coding = true :=
+  coding_only_skips_variants exN 1 12 true (by decide) (by decide)
     (by
       intro c hc
       simp only [exN, List.mem_cons, List.not_mem_nil, or_false] at hc
       rcases hc with rfl | rfl <;> exact ⟨by decide, by decide⟩)
-    ⟨exVar, by decide, rfl⟩
 
 example : overlapInt ((2 : Nat), (8 : Nat)) ((6 : Nat), (10 : Nat)) = Model.overlapKernel (2, 8) (6, 10) :=
   overlap_kernel_is_location_kernel (2, 8) (6, 10) (by decide) (by decide)
